@@ -48,7 +48,12 @@ func (p Precompile) RunSetup(
 	if !ok {
 		return sdk.Context{}, nil, nil, uint64(0), nil, fmt.Errorf(ErrNotRunInEvm)
 	}
-	ctx = stateDB.GetContext()
+	// From here on the precompile works on a branch of the transaction's context that holds the
+	// EVM state accumulated so far and is dropped again if the calling frame fails.
+	ctx, err = stateDB.BeginPrecompileCall()
+	if err != nil {
+		return sdk.Context{}, nil, nil, uint64(0), nil, err
+	}
 
 	// NOTE: This is a special case where the calling transaction does not specify a function name.
 	// In this case we default to a `fallback` or `receive` function on the contract.
